@@ -11,12 +11,12 @@ import (
 
 func init() {
 	register(&Property{
-		ID:        "C10",
-		Roots:     []string{"overlord/snapstate", "overlord/configstate/config"},
-		Technique: "do/undo pairing over the handler pairs registered with TaskRunner.AddHandler: task-data key agreement, save-before-mutate / restore-from-saved field provenance (SSA) for link-snap, guarded-sink of snapstate.Set by the backend effect in every link/unlink handler, deferred-cleanup registration after the backend effect; who-may-write of the \"snaps\" state key",
+		ID:          "C10",
+		Roots:       []string{"overlord/snapstate", "overlord/configstate/config"},
+		Technique:   "do/undo pairing over the handler pairs registered with TaskRunner.AddHandler: task-data key agreement, save-before-mutate / restore-from-saved field provenance (SSA) for link-snap, guarded-sink of snapstate.Set by the backend effect in every link/unlink handler, deferred-cleanup registration after the backend effect; who-may-write of the \"snaps\" state key",
 		Explanation: "Structural necessary conditions for 'a failed install/refresh/revert leaves the snap as it was': (R1) for every (do, undo) pair registered by the snap manager, every old-* task-data key saved by do is read by its undo and every old-* key read by an undo is saved by a do paired with it; (R2) link-snap: each field of the recorded snap state that the property lists and doLinkSnap changes (current revision, tracking channel, try/dev/jail/classic flags, ignore-validation, cohort key, refresh-inhibited and last-refresh times, revert status, position of the candidate in the sequence) is saved under an old-* key from a read of that same field that no change of the field can precede, the save is on every path to the state write, and undoLinkSnap writes the field back from that same key (Active back to false) before its own state write; (R3) each do handler with a backend effect has the inverse effect in its undo (link/unlink, setup/undo-setup, copy/undo-copy data); (R4) in doLinkSnap the clean-up closure that unlinks (or relinks the old snapd) is deferred right after backend.LinkSnap on every path that can still fail, and acts only when the handler's error result is set; (R5) every do and undo handler that links or unlinks a snap writes the snap state only after that backend effect succeeded (sibling agreement); (R6) the \"snaps\" state key is written only by snapstate.Set; (R7) the undo bookkeeping helpers are exhaustive: countMissingRevs leaves its loop over the recorded revisions only by exhausting it, and SaveRevisionConfig, once the snap has a configuration, overwrites the saved copy of that revision and stores the map on every successful return.",
-		NotDecided: "the index arithmetic of re-inserting the candidate beyond countMissingRevs being exhaustive; contents of the saved revision configuration; aliases; that every task of the change has such a pair (the other kinds are covered by R1/R3 only).",
-		Run:        runC10,
+		NotDecided:  "the index arithmetic of re-inserting the candidate beyond countMissingRevs being exhaustive; contents of the saved revision configuration; aliases; that every task of the change has such a pair (the other kinds are covered by R1/R3 only).",
+		Run:         runC10,
 	})
 }
 
@@ -467,6 +467,83 @@ func runC10(c *Ctx) {
 		}
 	}
 
+	// ---------------- R8
+	c.Rule("C10-R8", "G+O", "link-snap: nothing fallible follows the state write (\"do at the end so we only preserve the new state if it worked\"), and the handler itself records the final task status once the state is written", 4)
+	taskGet = P.FuncObj("overlord/state.(*Task).Get")
+	chgGet := P.FuncObj("overlord/state.(*Change).Get")
+	finishMaybe := P.FuncObj(pkg + ".(*SnapManager).finishTaskWithMaybeRestart")
+	finishRestart := P.FuncObj(pkg + ".FinishTaskWithRestart")
+	setStatus := P.FuncObj("overlord/state.(*Task).SetStatus")
+	statusCall := func(in ssa.Instruction) bool {
+		_, ok := IsCallTo(in, setStatus, finishMaybe, finishRestart)
+		return ok
+	}
+	for _, hn := range []string{"doLinkSnap", "undoLinkSnap"} {
+		fn := P.Func(pkg + ".(*SnapManager)." + hn)
+		sets := CallSites(fn, setObj)
+		if len(sets) != 1 {
+			c.Undecided(hn+"#single-state-write", fn.Pos(), fmt.Sprintf("expected one Set(st, name, snapst), found %d", len(sets)))
+			continue
+		}
+		set := sets[0]
+		// (a) the final status is recorded by the handler on every accepting path after the write
+		r := ReachQ{Fn: fn, From: LocOf(set), CutInstr: statusCall, Sink: IsSuccessReturn}.Run()
+		c.Check(!r.Found, hn+"#final-status-set-with-state-write", set.Pos(), "SetStatus / FinishTaskWithRestart follows the state write on every accepting path", hn+" can return success after writing the snap state without recording the task's final status itself: a crash between the handler's checkpoint and the runner's makes the task run again on the already-updated state: "+P.PathString(r.Path))
+		if hn != "doLinkSnap" {
+			continue
+		}
+		// (b) error results produced after the write come only from decoding task/change data
+		errIdx := fn.Signature.Results().Len() - 1
+		cell := ResultCell(fn, errIdx)
+		classify := func(v ssa.Value) string {
+			v = Strip(v)
+			if IsNilConst(v) {
+				return ""
+			}
+			if cc, _, ok := CallResult(v); ok {
+				if _, is := IsCallTo(cc, taskGet, chgGet, finishMaybe, finishRestart); is {
+					return ""
+				}
+				if co := CalleeOf(cc); co != nil {
+					return FuncName(co)
+				}
+			}
+			return "a computed error"
+		}
+		nAfter := 0
+		report := func(pos token.Pos, what string) {
+			nAfter++
+			c.Check(what == "", fmt.Sprintf("%s#error-after-state-write#%d", hn, nAfter), pos, "only task/change data decoding can fail after the write", hn+" can fail with the error of "+what+" after it has written the new snap state: the task ends in Error, its own undo never runs, and the earlier tasks are undone against the new state")
+		}
+		if cell != nil {
+			stores, _ := cellStores(cell)
+			for _, st := range stores {
+				if !(ReachQ{Fn: fn, From: LocOf(set), Sink: SinkIs(st)}).Run().Found {
+					continue
+				}
+				var leaves []FlowPoint
+				phiLeaves(st.Val, st, &leaves, map[*ssa.Phi]bool{})
+				for _, lf := range leaves {
+					report(lf.Pos(), classify(lf.Val))
+				}
+			}
+		} else {
+			for _, rt := range ReturnsOf(fn) {
+				if !(ReachQ{Fn: fn, From: LocOf(set), Sink: SinkIs(rt)}).Run().Found {
+					continue
+				}
+				var leaves []FlowPoint
+				phiLeaves(rt.Results[errIdx], rt, &leaves, map[*ssa.Phi]bool{})
+				for _, lf := range leaves {
+					report(lf.Pos(), classify(lf.Val))
+				}
+			}
+		}
+		if nAfter == 0 {
+			c.Undecided(hn+"#error-after-state-write", set.Pos(), "no result after the state write was found")
+		}
+	}
+
 	// ---------------- R7
 	c.Rule("C10-R7", "L+O", "undo bookkeeping helpers are exhaustive: countMissingRevs examines every recorded revision; SaveRevisionConfig, once the snap has a configuration, always overwrites the saved copy of that revision and stores it", 3)
 	cmr := P.Func(pkg + ".countMissingRevs")
@@ -552,6 +629,13 @@ func runC10(c *Ctx) {
 		for _, sc := range CallSites(fn, stSet) {
 			if k, ok := ConstString(CallArgs(sc)[0]); ok && k == "snaps" {
 				n++
+				if fn.Pkg != nil && strings.HasSuffix(fn.Pkg.Pkg.Path(), "/overlord/patch") {
+					// state-format migrations: patch.Apply runs them at overlord start-up, before any
+					// manager or task exists, rewriting the whole map from the old format (seen only
+					// by the thorough tier, which loads every package)
+					c.Holds(fmt.Sprintf("state-key:snaps#writer:%s", SSAFuncName(fn)), sc.Pos(), "state-format migration run by patch.Apply before the managers start")
+					continue
+				}
 				c.Check(SSAFuncName(fn) == pkg+".Set", fmt.Sprintf("state-key:snaps#writer:%s", SSAFuncName(fn)), sc.Pos(), "written by snapstate.Set", "the \"snaps\" state key is written by "+SSAFuncName(fn)+", bypassing snapstate.Set")
 			}
 		}
